@@ -103,6 +103,9 @@ class BaseRun:
     def __exit__(self, *a):
         self.world.close()
         self._sess.__exit__(*a)
+        # the finished run keeps only its recorded history (ops, outs, monitor messages, flags)
+        self.world = self._sess = self.ptasks = self.tid_of = None
+        self.cond = self.ev = None
 
     def run_env_handles(self):
         """Run, once, every ready handle that is not a puppet's step/wake-up (cancel-scope delivery retries)."""
